@@ -89,6 +89,9 @@ class H:
         self.kind, self.progs, self.shared = kind, progs, shared  # progs: per thread a tuple of root trees
         self.name = f"tramp|{kind}|shared={int(shared)}|" + "||".join(";".join(tname(t) for t in p) for p in progs)
         self.sig = "trampoline" if kind == "trampoline" else "currentthread"
+        # one TrampolineScheduler object = one trampoline for all its callers; one CurrentThreadScheduler object keeps a
+        # trampoline *per calling thread* ("separate trampoline and queue"), so sharing the object shares no queue
+        self.shared_tramp = shared and kind == "trampoline"
         self.focus = ilv.focus_files("scheduler/trampoline.py", "scheduler/trampolinescheduler.py", "scheduler/currentthreadscheduler.py")
 
     def setup(self, run):
@@ -235,15 +238,15 @@ class H:
                 P.append((f"{sig}|ran-before-due", f"{a['nid']} ({r['op']}) scheduled at clock {r['clock']} started at {a['clock']}"))
             if r["cancelled"] and r["cancelled"]["idx"] < a["idx"]:
                 P.append((f"{sig}|cancelled-action-ran", f"{a['nid']} was cancelled before it started but ran"))
-            if not self.shared and a["thread"] != tids.get(f"h{a['t'] + 1}"):
+            if not self.shared_tramp and a["thread"] != tids.get(f"h{a['t'] + 1}"):
                 P.append((f"{sig}|ran-on-other-thread", f"{a['nid']} scheduled by thread {a['t']} ran on thread id {a['thread']}"))
         nids = [a["nid"] for a in acts]
         if len(set(nids)) != len(nids):
             P.append((f"{sig}|action-ran-twice", f"{nids}"))
         for nid, r in sched.items():
             if not r["cancelled"] and nid not in nids:
-                P.append((f"{sig}|action-lost", f"{nid} ({r['op']}) was scheduled, never cancelled, and never ran (shared={self.shared})"))
-        if self.shared and st["overlap"]:
+                P.append((f"{sig}|action-lost", f"{nid} ({r['op']}) was scheduled, never cancelled, and never ran (shared={self.shared_tramp})"))
+        if self.shared_tramp and st["overlap"]:
             P.append((f"{sig}|two-actions-at-once", f"{st['overlap']} started while another action was running on the shared trampoline"))
         # order
         if len(self.progs) == 1 and not ticked:
@@ -254,14 +257,14 @@ class H:
         else:
             # per scheduling thread (own trampoline) / globally (shared): among two items pending together the
             # one with strictly smaller due interval, or the same thread's earlier one with equal delay base, runs first
-            groups = [acts] if self.shared else list(by_t.values())
+            groups = [acts] if self.shared_tramp else list(by_t.values())
             for g in groups:
                 for i, a in enumerate(g):
                     for b in g[i + 1:]:
                         ra, rb = sched[a["nid"]], sched[b["nid"]]
                         # b ran after a although b was pending (scheduled) before a started and strictly earlier due
                         if rb["idx"] < a["idx"] and rb["clock"] + rb["delay"] < ra["clock"] + ra["delay"] and not ticked and ra["idx"] < a["idx"]:
-                            if not (self.shared and ra["t"] != rb["t"]):
+                            if not (self.shared_tramp and ra["t"] != rb["t"]):
                                 P.append((f"{sig}|order", f"{b['nid']} (due {rb['clock'] + rb['delay']}) was pending with {a['nid']} (due {ra['clock'] + ra['delay']}) but ran after it"))
         return P[:3]
 
